@@ -211,6 +211,60 @@ static Verdict run_c06_rderr(const Case &c, const EncCase &e, const bytes &base)
   return v;
 }
 
+// the encrypted file arrives through a pipe: the stream cannot seek (every fseek fails with ESPIPE) and its size is
+// unknown (the CLI passes 0 when the size cannot be determined) or known. Whatever verify / decrypt make of the
+// failed seeks, a wrong key is not accepted and nothing is written.
+static Verdict run_c06_pipe(const Case &c, const EncCase &e, const bytes &base)
+{
+  Verdict v;
+  bytes w0 = c.getb("wrongkey");
+  w0.resize(16);
+  v.classes.push_back("kind=pipe");
+  std::vector<bytes> keys = {w0};
+  for (int k = 0; k < 6; k++)
+  {
+    bytes w = e.key;
+    long bit = (c.geti("roff") * (k + 1) * 31 + k * 23) % 128;
+    w[(size_t)(bit / 8)] ^= (uint8_t)(1 << (bit % 8));
+    keys.push_back(w);
+  }
+  for (int dec = 0; dec < 2; dec++)
+    for (long hint : {0L, -1L})
+      for (const bytes &w : keys)
+      {
+        if (w == e.key)
+          continue;
+        wapi::PipeCfg pc = pcfg(e, wapi::SchedSpec());
+        pc.in_noseek = true;
+        pc.fsize_hint = hint;
+        ChildResult r = run_in_child([&]() { return (dec ? wapi::decrypt(base, w, pc) : wapi::verify(base, w, pc, true)).ser(); }, 60);
+        v.weight++;
+        if (r.status == CH_TIMEOUT)
+          continue;
+        if (r.status != CH_OK)
+        {
+          v.classes.push_back("pipe:abnormal_end(accepted)");
+          continue;
+        }
+        wapi::OpOut o = wapi::OpOut::de(r.payload);
+        v.more_distinct.push_back(fnv64(hex(w) + (dec ? "d" : "v") + std::to_string(hint), fnv64(base.data(), base.size())));
+        std::string m;
+        if (o.ret)
+          m = std::string(dec ? "decryption" : "verification") + " succeeded with a wrong key";
+        else if (o.out_writes || !o.out.empty())
+          m = std::string(dec ? "decryption" : "verification") + " with a wrong key wrote " + std::to_string(o.out_written_bytes) + " bytes to the output";
+        if (!m.empty())
+        {
+          Verdict fl = Verdict::fail(m + " when the " + std::to_string(base.size()) + "-byte file is read from a pipe (no seeking; size passed to the operation: " + (hint == 0 ? "0 = unknown" : "the real size") + ") [key " + hex(w) + ", right key " + hex(e.key) + ", T=" + std::to_string(e.T) + "]");
+          fl.nontrivial = true;
+          fl.classes = v.classes;
+          return fl;
+        }
+      }
+  v.nontrivial = !v.more_distinct.empty();
+  return v;
+}
+
 static Verdict run_c06(const Case &c)
 {
   if (c.get("kind", "one") == "cli")
@@ -222,6 +276,8 @@ static Verdict run_c06(const Case &c)
     return run_c06_fault(c, e, base);
   if (c.get("kind", "one") == "rderr")
     return run_c06_rderr(c, e, base);
+  if (c.get("kind", "one") == "pipe")
+    return run_c06_pipe(c, e, base);
   std::vector<bytes> keys;
   std::vector<std::string> labels;
   std::string kind = c.get("kind", "one");
@@ -329,6 +385,13 @@ static Case gen_c06()
     c.seti("roff", g::range(1, 100000));
     return c;
   }
+  if (g::coin(2))
+  {
+    c.set("kind", "pipe");
+    c.setb("wrongkey", g::raw(16));
+    c.seti("roff", g::range(1, 100000));
+    return c;
+  }
   if (k < 40)
     c.set("kind", "neighbours");
   else
@@ -414,6 +477,8 @@ static void fixed_c06(Ctx &ctx)
         c.set("kind", "rderr");
         c.setb("wrongkey", w);
         c.seti("roff", 1000 + cm * 10 + hm);
+        eval_fixed(*p, ctx, c);
+        c.set("kind", "pipe");
         eval_fixed(*p, ctx, c);
       }
     }
